@@ -3,7 +3,7 @@
 EXTRA_BUILDS = {}
 
 HOOK_COMMITS = ["7bc0d60"]
-FIX_COMMITS = ["243874c", "428186b", "52f0108", "243864d", "8c765f6", "203eb57", "7f74090", "7540dfb", "68d683c", "7270b67", "5166c8b", "ecda124", "339d430", "de0c013", "2ab1d79", "1ca4c45", "85f8c0d", "e55cc2b"]
+FIX_COMMITS = ["243874c", "428186b", "52f0108", "243864d", "8c765f6", "203eb57", "7f74090", "7540dfb", "68d683c", "7270b67", "5166c8b", "ecda124", "339d430", "de0c013", "2ab1d79", "1ca4c45", "85f8c0d", "e55cc2b", "737d37d", "b36c271", "e1afc6e", "e9b5406", "f7dcfe9", "96f195d"]
 
 NOT_APPLICABLE = {}
 
